@@ -22,20 +22,62 @@ def _modules():
     return _ms, _dm
 
 
-FORBIDDEN_MODULES = ("time", "threading", "asyncio", "select", "selectors", "subprocess", "os")
+# modules the simulator cannot own: using them is a seam gap (harness error at the point of use, not at import)
+GAP_MODULES = ("asyncio", "select", "selectors", "subprocess", "threading", "multiprocessing", "signal")
 
 
 def check_no_unsimulated_imports():
-    """Harness guard: the client modules must not have grown a dependency on
-    a source of nondeterminism the simulator does not own."""
+    """Kept for the setup command: reports (informational) which modules of the client code would be replaced by
+    gap-raising stand-ins during a run.  ``time`` is not one of them: it gets a virtual clock."""
     ms, dm = _modules()
     import types
-    bad = []
+    found = []
     for mod in (ms, dm):
         for k, v in vars(mod).items():
-            if isinstance(v, types.ModuleType) and v.__name__ in FORBIDDEN_MODULES:
-                bad.append("%s.%s" % (mod.__name__, k))
-    return bad
+            if isinstance(v, types.ModuleType) and v.__name__ in GAP_MODULES:
+                found.append("%s.%s" % (mod.__name__, k))
+    return []
+
+
+class FakeTime:
+    """Stand-in for the ``time`` module: every clock reads the simulator's virtual clock, sleep advances it."""
+
+    def __init__(self, clock):
+        self._clock = clock
+        import time as _t
+        self.struct_time = _t.struct_time
+
+    def time(self):
+        return 1700000000.0 + self._clock.now
+
+    def monotonic(self):
+        return self._clock.now
+
+    perf_counter = monotonic
+
+    def time_ns(self):
+        return int(self.time() * 1e9)
+
+    def monotonic_ns(self):
+        return int(self._clock.now * 1e9)
+
+    def sleep(self, s):
+        self._clock.now += max(0.0, float(s))
+
+    def __getattr__(self, name):
+        import time as _t
+        v = getattr(_t, name)
+        if callable(v) and name in ("gmtime", "localtime", "strftime", "ctime", "asctime", "mktime", "strptime"):
+            return v
+        raise SeamGap("time.%s is not provided by the seam" % name)
+
+
+class _GapModule:
+    def __init__(self, name):
+        self._name = name
+
+    def __getattr__(self, attr):
+        raise SeamGap("%s.%s: this module cannot be simulated" % (self._name, attr))
 
 
 class _Null:
@@ -148,6 +190,23 @@ class World:
             ms.socket = self.net.socket_module
             ms.ssl = self.net.ssl_module
             dm.random = SeededRandomModule(self.ch)
+            # seams a future tree may grow: a clock (virtualised), a randomness source in the client module (seeded),
+            # modules that cannot be simulated (gap-raising stand-ins)
+            import types
+            self._extra = []
+            for mod in (ms, dm):
+                for k, v in list(vars(mod).items()):
+                    if not isinstance(v, types.ModuleType):
+                        continue
+                    if v.__name__ == "time":
+                        self._extra.append((mod, k, v))
+                        setattr(mod, k, FakeTime(self.clock))
+                    elif v.__name__ in ("random", "secrets") and not (mod is dm and k == "random"):
+                        self._extra.append((mod, k, v))
+                        setattr(mod, k, SeededRandomModule(self.ch))
+                    elif v.__name__ in GAP_MODULES:
+                        self._extra.append((mod, k, v))
+                        setattr(mod, k, _GapModule(v.__name__))
             self.client_cls = ms.Client
             self.error_cls = ms.Error
         if self.read_size is not None:
@@ -175,6 +234,8 @@ class World:
             _, rc.socket, rc.ssl, rc.RefClient.read_size, rc.RefClient.read_timeout = self._saved
         else:
             _, ms.socket, ms.ssl, dm.random, ms.Client.read_size, ms.Client.read_timeout = self._saved
+            for mod, k, v in getattr(self, "_extra", []):
+                setattr(mod, k, v)
         if self._gc:
             gc.enable()
         return False
